@@ -8,6 +8,7 @@
 // found online at https://opensource.org/licenses/MIT.
 //
 
+#include <ctype.h>
 #include <stdarg.h>
 #include <stdbool.h>
 #include <stdio.h>
@@ -263,6 +264,12 @@ http_res_parse_line(nng_http *conn, uint8_t *line)
 	*reason = '\0';
 	reason++;
 
+	// The status code is exactly three digits (RFC 7230 3.1.2).
+	if ((strlen(codestr) != 3) || (!isdigit((unsigned char) codestr[0])) ||
+	    (!isdigit((unsigned char) codestr[1])) ||
+	    (!isdigit((unsigned char) codestr[2]))) {
+		return (NNG_EPROTO);
+	}
 	status = atoi(codestr);
 	if ((status < 100) || (status > 999)) {
 		return (NNG_EPROTO);
